@@ -178,6 +178,7 @@ type harnessReport struct {
 	Samples        []map[string]interface{}
 	Validate       []*replayRec
 	minSampleScore int
+	Cross          string
 }
 
 func runProperty(id, tier string, seed int, reg Registry, only string, workers int, verbose bool) int {
@@ -262,6 +263,9 @@ func runProperty(id, tier string, seed int, reg Registry, only string, workers i
 			inconclusive = append(inconclusive, fmt.Sprintf("%s: harness function %s.%s not available (harness file does not compile against this tree?)%s", h.Name, h.Pkg, h.Func, why))
 			continue
 		}
+		if h.Solver == "" {
+			h.Solver = "z3"
+		}
 		cfg := symex.ExploreConfig{Entry: fn, Workers: workers, MaxPaths: tc.MaxPaths, MaxSteps: h.MaxSteps,
 			Solver: h.Solver, TimeoutMs: h.Timeout, Params: tc.Params, IntMode: h.Backend == "int", KeepFuncs: true, SampleModels: 3, StopOnViol: 25}
 		if cfg.MaxPaths == 0 {
@@ -275,6 +279,57 @@ func runProperty(id, tier string, seed int, reg Registry, only string, workers i
 		}
 		res := in.Explore(cfg)
 		rep := &harnessReport{H: h, Tier: tc, Res: res, Aborts: map[string]int{}, Reach: map[string]int{}, Funcs: map[string]bool{}}
+		// cross-solver pass (thorough tier): the whole harness is explored again with another
+		// solver; path counts and verdict counts must agree, a disagreement blocks the claim.
+		if (tier == "thorough" || os.Getenv("VERIF_CROSS") == "1") && !res.Truncated && res.Wall < 10*time.Minute {
+			alt := "z3-new"
+			if h.Solver == "z3-new" {
+				alt = "z3"
+				if h.Backend == "int" {
+					alt = "cvc5"
+				}
+			}
+			cfg2 := cfg
+			cfg2.Solver = alt
+			cfg2.KeepFuncs = false
+			cfg2.SampleModels = 0
+			cfg2.Deadline = time.Now().Add(3*res.Wall + 2*time.Minute)
+			res2 := in.Explore(cfg2)
+			count := func(r *symex.ExploreResult) (paths, unsat, trivial, sat, unknown int) {
+				for _, p := range r.Paths {
+					paths++
+					for _, a := range p.Asserts {
+						switch a.Verdict {
+						case "unsat":
+							unsat++
+						case "trivial":
+							trivial++
+						case "sat":
+							sat++
+						default:
+							unknown++
+						}
+					}
+				}
+				return
+			}
+			p1, u1, t1, s1, k1 := count(res)
+			p2, u2, t2, s2, k2 := count(res2)
+			rep.Cross = fmt.Sprintf("%s: paths=%d unsat=%d trivial=%d sat=%d unknown=%d in %.1fs (primary %s: paths=%d unsat=%d trivial=%d sat=%d unknown=%d)",
+				alt, p2, u2, t2, s2, k2, res2.Wall.Seconds(), cfg.Solver, p1, u1, t1, s1, k1)
+			aborted2 := 0
+			for _, p := range res2.Paths {
+				if strings.HasPrefix(p.Outcome, "abort:") {
+					aborted2++
+				}
+			}
+			switch {
+			case res2.Truncated || k2 > 0 || aborted2 > 0 || len(res2.SolverErrors) > 0:
+				rep.Cross += " [second solver incomplete: no cross-check for this harness]"
+			case p1 != p2 || u1+t1 != u2+t2 || s1 != s2:
+				inconclusive = append(inconclusive, fmt.Sprintf("%s: cross-solver disagreement: %s", h.Name, rep.Cross))
+			}
+		}
 		seenViol := map[string]int{}
 		for _, p := range res.Paths {
 			rep.Paths++
@@ -734,7 +789,7 @@ func writeEvidence(id, tier string, seed int, reports []*harnessReport, inconclu
 			"paths_infeasible_or_assumed_away": r.Stopped, "aborted": len(r.Aborts), "assertions_unsat": r.Discharged,
 			"assertions_concretely_true": r.Trivial, "solver_unknown": r.Unknown, "violations": len(r.Viol), "known_finding_hits": len(r.KnownHits),
 			"queries": r.Res.Queries, "solver_s": round3(r.Res.SolverTime.Seconds()), "max_query_ms": round3(r.Res.MaxQueryMs),
-			"wall_s": round3(r.Res.Wall.Seconds()), "reach_witnesses": reach, "truncated": r.Res.Truncated,
+			"wall_s": round3(r.Res.Wall.Seconds()), "reach_witnesses": reach, "truncated": r.Res.Truncated, "cross_solver": r.Cross,
 		})
 	}
 	if len(samples) == 0 {
